@@ -21,6 +21,7 @@ CodeDev == DevWaitClosed \cup DevFailedSwallowed \cup DevTrioReturn
 DevServersFirst == {"servers_before_startup"}               \* StartupFirst
 DevShutdownEarly == {"shutdown_before_drain"}               \* ShutdownAfterDrainOrGrace
 DevSkipTerminated == {"skip_terminated"}                    \* IdleClosedAfterTrigger
+DevShutdownStartTO == {"shutdown_waits_startup_timeout"}    \* BoundedShutdown (StartTO > ShutTO)
 DevMarkGe == {"mark_request_ge"}                            \* RecycleWindow
 
 Bound == now <= MaxTime
